@@ -40,8 +40,9 @@ def toFloatKind (F : FloatFmt) (b : Nat) (dstFrac dstInt : Nat) : FloatKind :=
   let (neg, exp, mant0) := F.parts b
   if exp > F.expMax then (if mant0 = 0 then .infinite neg else .nan)
   else
-    let mant1 : Nat := if exp ≥ F.expMin then mant0 + 2 ^ (F.prec - 1) else mant0    -- `|= 1 << (prec - 1)`
-    if mant1 = 0 then .finite neg ⟨false, 0, 0, false⟩
+    -- normal: `|= 1 << (prec - 1)`; subnormal: the exponent of the smallest normal
+    let (mant1, exp) : Nat × Int := if exp ≥ F.expMin then (mant0 + 2 ^ (F.prec - 1), exp) else (mant0, F.expMin)
+    if mant1 = 0 then .finite false ⟨false, 0, 0, false⟩
     else
       let srcFrac0 : Int := (F.prec : Int) - 1 - exp
       let needShr : Int := srcFrac0 - dstFrac
